@@ -33,6 +33,19 @@ theorem run_schedule_canonical (c : Cfg) (h : List Act) (s : Nat) :
       (exec c [.new s (nvAfter ⟨7, 7, 1⟩ h), .run]).scheds.getLast? := by
   first | (apply Snow.SeedsLemmas.run_schedule_canonical <;> assumption)
 
+/-- **run_outcome_canonical**: for EVERY history (constructions, seed and vial-seed
+assignments, matrix builds, property reads in any order, shape changes, runs),
+seeding with `s` and running uses the generator schedule AND the vial deviates
+`(seed_v, N)` of a fresh `Snowflake(seed = s, seed_v = v)` of the shape and vial seed
+then in force: the legacy generator is re-seeded with the current `seed_v` in
+every run, nothing is remembered from earlier runs. -/
+theorem run_outcome_canonical (c : Cfg) (h : List Act) (s : Nat) :
+    (exec c (h ++ [.setSeed s, .run])).scheds.getLast? =
+      (exec c [.new s (nvAfter ⟨7, 7, 1⟩ h), .setSeedV (seedVAfter 2024 h), .run]).scheds.getLast? ∧
+    (exec c (h ++ [.setSeed s, .run])).xis.getLast? =
+      (exec c [.new s (nvAfter ⟨7, 7, 1⟩ h), .setSeedV (seedVAfter 2024 h), .run]).xis.getLast? := by
+  first | (apply Snow.SeedsLemmas.run_outcome_canonical <;> assumption)
+
 /-- … and a plain re-run (no re-seeding) when the object's seed already is `s`. -/
 theorem run_schedule_canonical_same_seed (c : Cfg) (h : List Act) (s : Nat)
     (hs : seedAfter 2021 h = s) :
